@@ -70,6 +70,55 @@ theorem double_precision_partial (F fracInt : Int) (hF : 4503599627370496 ≤ F.
   generalize F.natAbs = b at hF ⊢
   omega
 
+/-- **PutStringBytes has PutString's wire bytes**: in both string modes, from any buffer, for every
+    NUL-free string — the ≥ one-frame branch (flush, length prefix, the bytes, then the terminator
+    by a second `PutBytes`) included, terminator and all. -/
+theorem strbytes_layout (enc : Bool) (buf s : Bytes) (hnz : ∀ b ∈ s, b ≠ 0) (hlen : s.length + 1 < 2^64) :
+    wireBytes (putStringBytes enc buf s) = buf ++ Spec.enc enc (.str s) := by
+  have hnul : truncNul s = s := takeWhile_all _ s (fun b hb => by simpa using hnz b hb)
+  unfold putStringBytes
+  simp only [hnul]
+  by_cases hbig : s.length + 1 + (if enc = true then 8 else 0) > maxFramePayload enc
+  · rw [if_pos hbig]
+    rw [wireBytes_seqPut _ _ [0] (wireBytes_putBytes _ _ _)]
+    rw [wireBytes_seqPut _ _ s (wireBytes_putBytes _ _ _)]
+    cases enc with
+    | false =>
+      simp only [Bool.false_eq_true, if_false]
+      by_cases hb : buf.length > 0
+      · simp [hb, wireBytes, Spec.enc]
+      · have : buf = [] := List.eq_nil_of_length_eq_zero (by omega)
+        simp [this, wireBytes, Spec.enc]
+    | true =>
+      simp only [if_true]
+      rw [wireBytes_seqPut _ _ (be64 (toU64 ((s.length + 1 : Nat) : Int))) (wireBytes_putInt _ _)]
+      rw [toU64_nat _ hlen]
+      by_cases hb : buf.length > 0
+      · simp [hb, wireBytes, Spec.enc]
+      · have : buf = [] := List.eq_nil_of_length_eq_zero (by omega)
+        simp [this, wireBytes, Spec.enc]
+  · rw [if_neg hbig]
+    exact wireBytes_putString enc buf s hnz hlen
+
+/-- **double_layout**: a double travels as exactly two 8-byte big-endian integers — the fraction
+    scaled by `FracConst = 2^31 − 1` and truncated, then the binary exponent — in both string
+    modes and whatever the flush policy does with frame boundaries (sixteen bytes in all). -/
+theorem double_layout (enc : Bool) (m e : Int)
+    (hfi : -(2^63 : Int) ≤ (encodeDbl m e).1 ∧ (encodeDbl m e).1 < (2^63 : Int))
+    (he : -(2^63 : Int) ≤ e ∧ e < (2^63 : Int)) :
+    wireBytes (putAll enc [] (dblVals m e)) = be64 (toU64 (encodeDbl m e).1) ++ be64 (toU64 e) ∧
+    fracConst = 2147483647 := by
+  refine ⟨?_, rfl⟩
+  have hwf : ∀ v ∈ dblVals m e, v.wf := by
+    intro v hv
+    simp only [dblVals, List.mem_cons, List.mem_nil_iff, or_false] at hv
+    rcases hv with rfl | rfl
+    · exact hfi
+    · exact he
+  rw [layout enc (dblVals m e) hwf]
+  simp [dblVals, Spec.encAll, Spec.enc]
+  rfl
+
 /-- **typed frames fit** (shared with C01): the integer and character encoders never let the
     buffer or a flushed frame exceed the largest payload a frame may carry in the current mode. -/
 theorem int_char_frames_fit (enc : Bool) (buf : Bytes) (hb : buf.length ≤ maxFramePayload enc) (v : Int) (c : UInt8) :
